@@ -111,6 +111,7 @@ def run(ctx):
     take_rule(ctx)
     header_rule(ctx)
     shortread_rule(ctx)
+    take_agreement_rule(ctx)
 
 
 def consume_rule(ctx):
@@ -522,3 +523,36 @@ def shortread_rule(ctx):
             bad.append('%s at %s' % (short_fn(fl), short_loc(t.get('span'))))
     ctx.ob('SHORTREAD', 'no-single-read-judged-by-count', not bad and n >= 1, None,
            'plain io::Read::read calls outside forwarding Read implementations: %s (%d call(s) seen; a short count at a refill boundary is not the end of input)' % (bad or 'none', n))
+
+
+def take_agreement_rule(ctx):
+    """the two implementations of the block-limited sub-reader report a block that is longer than the input at the same
+    point: both when the block is taken, or both when its bytes run out.  (A slice that checks `block_size <= len` up
+    front yields nothing from a truncated block, a reader wrapped in io::Take yields every object that is still there
+    and then an end-of-input error: same bytes, different outcomes.)"""
+    f = ctx.f
+    sb = fn_by_label(f, '<de::read::SliceRead as de::read::take::Take>::take')
+    rb = fn_by_label(f, '<de::read::ReaderRead as de::read::take::Take>::take')
+    if sb is None or rb is None:
+        ctx.ob('TAKE', 'siblings-agree-on-short-blocks', False, None, 'take implementations not found')
+        return
+
+    def eager(b):
+        # an Err return that depends on a comparison with the length of what is available
+        for bb in sorted(b.live_blocks()):
+            if b.term(bb)['k'] != 'switch' or b.is_cleanup(bb):
+                continue
+            si = b.switch_info(bb)
+            if si.get('kind') == 'enum':
+                continue
+            cond = switch_condition(b, si)
+            while cond[0] == 'not':
+                cond = cond[1]
+            if cond[0] == 'cmp':
+                lo, ro = origin(b, cond[2]), origin(b, cond[3])
+                if ('len' in lo.flags or 'len' in ro.flags) and any(all_paths_err(b, s_) for s_ in b.succs(bb)):
+                    return True
+        return False
+    es, er = eager(sb), eager(rb)
+    ctx.ob('TAKE', 'siblings-agree-on-short-blocks', es == er, short_loc(sb.span),
+           'a block longer than the remaining input is refused when it is taken: slice %s, reader %s' % (es, er))
